@@ -7,7 +7,8 @@
 (* A trace is ONE run on one stylesheet, abstracted by the harness:        *)
 (*   vdef  : custom property -> <<"lit", colour id>> | <<"var", name>>     *)
 (*   rules : coloured and uncoloured rules in document order               *)
-(*           [root, col = none | lit c | var v | varfb v c, bg = "b<n>"]   *)
+(*           [root, col = none | lit c | var v | varfb v e, bg = "b<n>"]   *)
+(*           (e = the fallback, itself lit c | var w | varfb w e')         *)
 (*   tab   : the oracle table taken from the Python API of the same tree:  *)
 (*           (colour id, background) -> invalid | fail | pass | tuned c'   *)
 (*           closed under the colours the run can produce                  *)
@@ -39,7 +40,7 @@ TInit ==
 \* stops and names it ("M_<colour>_<background>"); the harness asks the API and re-submits the run
 Upcoming == IF phase = "run" /\ i <= Len(rules) /\ rules[i].col # NoneE
             THEN <<Res(rules[i].col, vdef, {}), rules[i].bg>> ELSE <<>>
-MissingNow == Upcoming # <<>> /\ Upcoming[1] # -1 /\ Upcoming \notin DOMAIN tab
+MissingNow == Upcoming # <<>> /\ Upcoming[1] >= 0 /\ Upcoming \notin DOMAIN tab
 NeedMore == /\ ~finished /\ MissingNow
             /\ KitFinish(tid, {}, {"M_" \o ToString(Upcoming[1]) \o "_" \o Upcoming[2]})
             /\ finished' = TRUE /\ UNCHANGED <<vars, tid>>
